@@ -15,7 +15,7 @@ def plan(tier, seed):
     specs = [(2, 1), (3, 1), (4, 1), (5, 1), (6, 0)] if tier == 'quick' else \
             [(2, 2), (3, 2), (4, 2), (5, 1), (6, 1), (7, 0)]
     return {
-        'chunks': sweep.shape_chunks(specs, per_chunk=24),
+        'chunks': sweep.shape_chunks(specs, per_chunk=24, tier=tier),
         'rule': 'every hierarchy over n tokens with up to u unary insertions x every head assignment (one head '
                 'child per constituent, expressed through HD edges) x {with, without root_attach first}; '
                 'boyd_split alone (blocks, head block, marking/numbering) and the full pipeline against the '
@@ -23,7 +23,8 @@ def plan(tier, seed):
                 'discontinuous',
         'bound': ', '.join('n=%d:u<=%d' % s for s in specs),
         'exhaustive': True,
-        'assumptions': ['head assignments are driven through edge labels read by negra_mark_heads'],
+        'assumptions': ['head assignments are driven through edge labels read by negra_mark_heads',
+                        'child lists are stored in token order or reversed (quick: alternating per case; thorough: both)'],
     }
 
 
@@ -55,9 +56,9 @@ def node_span(x):
     return sorted(l.data['num'] for l in raw_leaves(x))
 
 
-def check_one(mtj, root_attach):
+def check_one(mtj, root_attach, order=None):
     mt = model.MT.from_json(mtj)
-    case = {'mt': mtj, 'root_attach': root_attach}
+    case = {'mt': mtj, 'root_attach': root_attach, 'order': order}
     out = []
 
     def bad(kind, where, detail, what):
@@ -65,7 +66,7 @@ def check_one(mtj, root_attach):
                     'detail': '%s [input %s, root_attach=%s]' % (detail, model.mt_str(mt.root, mt.toks), root_attach),
                     'what': what})
     try:
-        t = build(mt)
+        t = build(mt, child_order=order)
         if root_attach:
             t = transform.root_attach(t)
         base = extract(t, sid=True)        # tree the rest of the pipeline starts from
@@ -150,18 +151,21 @@ def check_one(mtj, root_attach):
 
 def check_case(case):
     with quiet():
-        return check_one(case['mt'], case['root_attach'])[0]
+        return check_one(case['mt'], case['root_attach'], case.get('order'))[0]
 
 
 def run_chunk(chunk):
     res = Result()
     with quiet():
+        idx = 0
         for sh, k in sweep.iter_shapes(chunk):
             for choice in head_choices(sh):
                 mt = assign_heads(sh, choice)
                 j = mt.to_json()
-                for ra in (False, True):
-                    vs, disc = check_one(j, ra)
+                idx += 1
+                orders = (None, 'rev') if chunk.get('tier') == 'thorough' else ((None,) if idx % 2 else ('rev',))
+                for ra, order in itertools.product((False, True), orders):
+                    vs, disc = check_one(j, ra, order)
                     res.evals += 1
                     if disc:
                         res.nontrivial += 1
